@@ -182,6 +182,19 @@ func init() {
 			}
 			return c.Ite(in, r.elemAt(s, i).(*Term), c.Const(8, 0))
 		},
+		pk + "verifAtU32": func(r *Run, fr *frame, a []Value) Value {
+			c := r.ctx
+			s := a[0].(SliceVal)
+			i := a[1].(*Term)
+			if s.slot == nil {
+				return c.Const(32, 0)
+			}
+			in := c.And(c.Sle(c.Const(64, 0), i), c.Slt(i, r.sliceLen(s)))
+			if in.IsFalse() {
+				return c.Const(32, 0)
+			}
+			return c.Ite(in, r.elemAt(s, i).(*Term), c.Const(32, 0))
+		},
 		pk + "verifAssertBytesEq": inAssertBytesEq,
 		pk + "verifEngineOnly": func(r *Run, fr *frame, a []Value) Value {
 			r.engineOnly = true
@@ -271,8 +284,11 @@ func inVerifBuf(r *Run, fr *frame, a []Value) Value {
 	if lo == hi {
 		n = c.Const(64, uint64(lo))
 	} else {
-		n = c.VarRange(name+"_len", 64, uint64(lo), uint64(hi))
-		r.addPC(c.And(c.Ule(c.Const(64, uint64(lo)), n), c.Ule(n, c.Const(64, uint64(hi)))))
+		n = c.Var(name+"_len", 64)
+		n.rlo, n.rhi = 0, ^uint64(0)
+		cons := c.And(c.Ule(c.Const(64, uint64(lo)), n), c.Ule(n, c.Const(64, uint64(hi))))
+		n.rlo, n.rhi = uint64(lo), uint64(hi)
+		r.addPC(cons)
 	}
 	sl := r.newSlot(&ArrVal{node: &ArrNode{kind: ArrBase, elemW: 8, name: name}, n: n}, name)
 	return SliceVal{slot: sl, off: c.Const(64, 0), len: n, cap: n}
